@@ -150,6 +150,24 @@ func (t *listTarget) keyPool(g *gen.G, n int) []poolKey {
 	var out []poolKey
 	seen := map[string]bool{}
 	names := model.KeyNames(t.ListSch)
+	if t.unionKeyed() && t.Pkg.HasTag("c15only") {
+		g.ZeroUnionKeys = true
+		defer func() { g.ZeroUnionKeys = false }()
+		// a union key holding the zero value of its member type (UnionUint32(0), UnionInt64(0))
+		// is an ordinary key: make sure the pool has one
+		for try := 0; try < 200; try++ {
+			e, k, ok := g.NewEntry(t.ElemType, t.KeyType, t.ListSch, 0)
+			if !ok {
+				continue
+			}
+			if r := model.Render(k); r == "u:0" || r == "i:0" || strings.Contains(r, "u:0 ") || strings.Contains(r, " u:0") || strings.Contains(r, "i:0 ") || strings.Contains(r, " i:0") {
+				s := model.FormatKeys(model.MapKeyStrings(k, names))
+				seen[s] = true
+				out = append(out, poolKey{Key: k, Proto: e, Str: s})
+				break
+			}
+		}
+	}
 	for try := 0; try < 40 && len(out) < n; try++ {
 		e, k, ok := g.NewEntry(t.ElemType, t.KeyType, t.ListSch, 0)
 		if !ok {
